@@ -210,7 +210,7 @@ theorem rrBody_ok {e e' : Enc} {rr : RR} (hs : Shaped rr) (h : rrBody rr e = .ok
     Step e e' (rdataSize rr) ∧ (∀ s ∈ rdataChecked rr, s.length ≤ 255) ∧
     (∀ it ∈ rrAplItems rr, (stripZeros it.addr).length < 128) ∧
     (∀ p ∈ rrSvcParams rr, (svcBody p).length ≤ 65535) ∧
-    (∀ o ∈ rrOptions rr, isPadding o = false → (optionBody o).length ≤ 65535) := by
+    (∀ o ∈ rrOptions rr, e.out.length + optionSize o ≤ e'.out.length) := by
   rcases hs.cases with ⟨info, vs, hk, hrd, _⟩ | ⟨pl, ext, ver, ds, opts, hk, hrd⟩ | ⟨items, hk, hrd⟩ |
     ⟨b, prio, target, params, hk, hrd⟩
   · simp only [rrBody, hk, hrd] at h
@@ -218,12 +218,10 @@ theorem rrBody_ok {e e' : Enc} {rr : RR} (hs : Shaped rr) (h : rrBody rr e = .ok
     exact ⟨(encFields_ok _ _ _ _ h).1, (encFields_ok _ _ _ _ h).2, by simp, by simp, by simp⟩
   · simp only [rrBody, hk, hrd] at h
     simp only [rdataSize, rdataChecked, rrAplItems, rrSvcParams, rrOptions, hk, hrd]
-    rw [encOptions_eq_foldW] at h
-    obtain ⟨hst, hall⟩ := foldW_ok (w := encOption) (size := optionSize) (P := fun _ => True)
-      (fun _ _ _ _ hw => encOption_step hw) _ _ _ (fun _ _ => trivial) h
-    refine ⟨hst, by simp, by simp, by simp, fun o ho => ?_⟩
-    obtain ⟨e1, e2, _, _, _, hw, _⟩ := hall o ho
-    exact (encOption_ok hw).2
+    refine ⟨encOptions_step h, by simp, by simp, by simp, fun o ho => ?_⟩
+    rw [encOptions_ok h, put_out, List.length_append, ← optionWire_length]
+    have := length_le_flatMap optionWire ho
+    omega
   · simp only [rrBody, hk, hrd] at h
     simp only [rdataSize, rdataChecked, rrAplItems, rrSvcParams, rrOptions, hk, hrd]
     rw [encApItems_eq_foldW] at h
@@ -312,8 +310,10 @@ theorem rrBody_cause {e : Enc} {rr : RR} {err : EErr} (hs : Shaped rr)
 /-- **Success of `Encoder::rr`** (every `Shaped` record, every state): the old output is untouched;
 appended are the owner name as written by `encName`, the ten fixed octets, RDLENGTH and the body,
 where RDLENGTH holds the TRUE body length, which is `≤ 65535`; every string the encoder checks has
-at most 255 octets, every APL address fewer than 128, every SvcParam value and every option at most
-65535; the weak table invariant is kept. -/
+at most 255 octets, every APL address fewer than 128, every SvcParam value at most 65535 and every
+EDNS option (INCLUDING padding, whose own length field the model does not check: an oversized
+padding option makes the RDATA window overflow) at most 65535 with its four header octets; the weak
+table invariant is kept. -/
 theorem encRR_ok {e e' : Enc} {rr : RR} (hs : Shaped rr) (h : encRR e rr = .ok e') :
     (∃ e1 nm body, encName e (rrOwner rr) = .ok e1 ∧ e1.out = e.out ++ nm ∧
       1 ≤ nm.length ∧ nm.length ≤ Name.sz (rrOwner rr) + 1 ∧
@@ -323,7 +323,7 @@ theorem encRR_ok {e e' : Enc} {rr : RR} (hs : Shaped rr) (h : encRR e rr = .ok e
     (∀ s ∈ rdataChecked rr, s.length ≤ 255) ∧
     (∀ it ∈ rrAplItems rr, (stripZeros it.addr).length < 128) ∧
     (∀ p ∈ rrSvcParams rr, (svcBody p).length ≤ 65535) ∧
-    (∀ o ∈ rrOptions rr, isPadding o = false → (optionBody o).length ≤ 65535) := by
+    (∀ o ∈ rrOptions rr, (optionBody o).length + 4 ≤ 65535) := by
   rw [encRR_eq e hs] at h
   cases h1 : encName e (rrOwner rr) with
   | error err => simp [h1] at h
@@ -341,11 +341,16 @@ theorem encRR_ok {e e' : Enc} {rr : RR} (hs : Shaped rr) (h : encRR e rr = .ok e
       · rename_i hle
         cases h
         obtain ⟨nm, hnm, hn1, hn2⟩ := encName_size_le h1
-        refine ⟨⟨e1, nm, body, rfl, hnm, hn1, hn2, ?_, by omega, hbl⟩, ?_, hchk, hapl, hsvc, hopt⟩
+        refine ⟨⟨e1, nm, body, rfl, hnm, hn1, hn2, ?_, by omega, hbl⟩, ?_, hchk, hapl, hsvc, ?_⟩
         · simp only [put_out, hnm]
         · intro hi
           have h3 : IdxLe e2 := hst.idx ((encName_step h1).idx hi)
           exact h3
+        · intro o ho
+          have h4 := hopt o ho
+          rw [hb] at h4
+          simp only [put_out, List.length_append, optionSize] at h4
+          omega
 
 /-- a successful record is a `Step` of at most `rrSize rr` octets -/
 theorem encRR_step {e e' : Enc} {rr : RR} (hs : Shaped rr) (h : encRR e rr = .ok e') :
@@ -431,15 +436,16 @@ theorem encRR_long_svcparam (e : Enc) {rr : RR} (hs : Shaped rr)
     have := (encRR_ok hs hr).2.2.2.2.1 p hm
     omega
 
-/-- an ECS or cookie option of more than 65535 octets makes it fail -/
+/-- an EDNS option (of any kind, padding included) of more than 65535 octets with its header makes
+it fail -/
 theorem encRR_long_option (e : Enc) {rr : RR} (hs : Shaped rr)
-    (h : ∃ o ∈ rrOptions rr, isPadding o = false ∧ 65535 < (optionBody o).length) :
+    (h : ∃ o ∈ rrOptions rr, 65535 < (optionBody o).length + 4) :
     ∃ err, encRR e rr = .error err := by
   cases hr : encRR e rr with
   | error err => exact ⟨err, rfl⟩
   | ok e' =>
-    obtain ⟨o, hm, hp, hgt⟩ := h
-    have := (encRR_ok hs hr).2.2.2.2.2 o hm hp
+    obtain ⟨o, hm, hgt⟩ := h
+    have := (encRR_ok hs hr).2.2.2.2.2 o hm
     omega
 
 /-- **RDATA longer than 65535 octets**: if the owner name and the body are written successfully and
@@ -477,6 +483,35 @@ theorem encRR_window_fits {e e1 e2 : Enc} {rr : RR} (hs : Shaped rr)
     simp only [put_out, List.length_append] at hlen ⊢
     simp only [List.length_cons, List.length_nil] at hlen
     omega
+
+/-- **Where a `.length` of `Encoder::rr` comes from** (the execution-level reading of
+`encRR_cause`): the owner-name writer returned it (a label was to be written at an offset above
+65535: `encNameGo_error_cases`), or the body writer returned it (again a label offset; an option /
+SvcParam window or an `ech` above 65535: `encOption_eq`, `encSvcParam_eq`; an APL address above
+255: `encApItem_eq`), or both succeeded and the RDATA window has more than 65535 octets. -/
+theorem encRR_length_cases {e : Enc} {rr : RR} (hs : Shaped rr) (h : encRR e rr = .error .length) :
+    encName e (rrOwner rr) = .error .length ∨
+    (∃ e1, encName e (rrOwner rr) = .ok e1 ∧
+      rrBody rr ((e1.put (rrFixed rr)).put [0, 0]) = .error .length) ∨
+    (∃ e1 e2, encName e (rrOwner rr) = .ok e1 ∧
+      rrBody rr ((e1.put (rrFixed rr)).put [0, 0]) = .ok e2 ∧
+      65535 < e2.out.length - ((e1.put (rrFixed rr)).put [0, 0]).out.length) := by
+  rw [encRR_eq e hs] at h
+  cases h1 : encName e (rrOwner rr) with
+  | error err1 => simp only [h1] at h; exact Or.inl h
+  | ok e1 =>
+    simp only [h1] at h
+    cases h2 : rrBody rr ((e1.put (rrFixed rr)).put [0, 0]) with
+    | error err2 => simp only [h2] at h; exact Or.inr (Or.inl ⟨e1, rfl, h2.trans h⟩)
+    | ok e2 =>
+      refine Or.inr (Or.inr ⟨e1, e2, rfl, h2, ?_⟩)
+      rcases Nat.lt_or_ge 65535 (e2.out.length - ((e1.put (rrFixed rr)).put [0, 0]).out.length)
+        with hlt | hge
+      · exact hlt
+      · obtain ⟨e', he'⟩ := encRR_window_fits hs h1 h2 hge
+        rw [encRR_eq e hs] at he'
+        simp only [h1, h2] at h he'
+        rw [he'] at h; cases h
 
 /-! ## Corollaries: the unreachable errors, one by one -/
 
